@@ -9,7 +9,13 @@ CFG = {'lean_modules': ['ObiVerif.Props.C14'],
          '(n <= 4) as a merged_taxid map, all (clade, sequence taxid) restrict/ignore queries; the n <= 4 shapes relabelled with arbitrary taxids, aliases and '
          'unknown taxids; 2500 (quick) / 5000 (thorough, per seed) random trees of 1..340 nodes in seven shapes (uniform, chain, star, deep, heap, caterpillar, '
          'local) with the 44 NCBI rank labels or odd labels, 12..42 random queries each; 12 / 24 trees of 1000..7000 nodes (random, chain, star, deep) with 60 '
-         'queries; one case in six is loaded through a synthetic NCBI dump directory; non-trivial = distinct well-formed case line',
+         'queries; one case in six is loaded through a synthetic NCBI dump directory; 28 query kinds (the 16 older ones + Taxon(string) forms str/rss, the drained '
+         'iterators isub/irank/ibel, taxonomic_path, scientific name, full state of the nodes/alias maps); mode dump: 300 (quick) / 1000 (thorough, per seed) '
+         'trees of 1..230 nodes rendered as the bytes of nodes.dmp / names.dmp / merged.dmp in random equivalent layouts (NCBI layout, no blanks, blanks, CRLF, '
+         'comment and empty lines, no final line break, final \\r, + signs and leading zeros, extra fields, decoy names) with the declared tree as oracle, one in three '
+         'damaged in one of 19 ways (duplicate taxid, bare quote, field count change, not-a-number, missing field, blank line, empty/short/comment/over-long line in '
+         'names.dmp, unknown parent, damaged merged.dmp, taxid 2^63-1 / 2^63, \\v \\f \\r blanks) where the loader model is the reference; 30 hand-written dump cases; '
+         'non-trivial = distinct well-formed case line',
  'technique': 'Lean 4 theorems on a functional model of the obitax queries for every well-formed taxonomy (any size, any taxids, any ranks, any alias table) + '
               'differential correspondence of the model with the real obitax / obigrep / obiannotate code on synthetic taxonomies + naive ancestor-set oracle',
  'level_text': 'For every well-formed taxonomy (WF: one self-parent root, parents are nodes, a depth function decreasing along parent links — shown equivalent to '
@@ -18,26 +24,40 @@ CFG = {'lean_modules': ['ObiVerif.Props.C14'],
                'lca_comm / lca_idem / lca_assoc, fuel_nodes_suffices (the fuel nodes+1 of the model executable never runs out on a well-formed taxonomy), isSubClade_iff_anc, taxonAtRank_first / _some / _none, hasRankDefined_iff, resolve_node / alias_resolves / '
                'resolve_lands_on_node, restrictTo_spec / ignoreTaxon_spec / requireRanks_spec / taxFilter_spec / taxFilter_fatal / inCladeSlot_spec / '
                'setTaxonAtRank_spec (fatal exactly for an unknown clade or a rank no node carries; otherwise select exactly what the ancestor relation implies), '
+               'filterSubclade_spec / filterRank_spec / filterBelonging_spec (the drained ITaxonSet filters IFilterOnSubcladeOf, IFilterOnTaxRank, IFilterBelongingSubclades yield exactly the '
+               'taxa of the source in the clade(s) / of the rank, in source order, each once when the source lists it once), pathString_items (taxonomic_path splits back into its items), '
+               'taxid_decimal_roundtrip / taxid_TX_roundtrip / taxonOfString_forms / taxonOfString_noparse (Taxon(string): Atoi(Itoa n) = n; any text pre ++ "TX:" ++ decimal n ++ suf with no earlier '
+               'TX:<digit> in pre and no digit heading suf designates n; otherwise parse error), loadDump_declared / loaded_nodes_declared / loaded_aliases / loadNodes_panic (LoadNCBITaxDump on files '
+               'whose csv records are the declarations builds exactly the declared nodes map - last line of a taxid wins, every line when taxids are distinct, no other node, ids complete - and the '
+               'alias table AddNewAlias*(merged.dmp in file order), resolution always landing on a node of the dump; a record with a missing or non-numeric field panics), '
                'weightedLca_threshold_one (Taxonomy.LCA at threshold 1.0 on a non-empty map of known taxids with positive counts = left fold of TaxNode.LCA over the '
                'taxa present = the deepest common ancestor of all of them, independent of weights and order), weightedLca_unknown, weightedLca_empty. The model is '
                'tied to pkg/obitax, obigrep/options.go and the obiannotate workers by running both on the same synthetic taxonomies (API-built and loaded from dump '
                'directories), all rooted labelled trees up to 6 nodes exhaustively, random trees to 7000 nodes, with an independent ancestor-set oracle on the real code.',
  'level_note': 'Trusted: Lean kernel; the transcription Model/Tax.lean (pointer comparisons of TaxNode read as taxid comparisons; the float test rmax >= 1.0 read as '
-               'the integer test total > 0 and weighMax = total). Tied by correspondence only (no theorem): ncbitaxdump.LoadNCBITaxDump builds the same taxonomy as the API calls; taxonomic_path / '
-               'lca_name / rank_name annotations (names), Taxon(string) parsing of "TX:n", AddLCAWorker = Taxonomy.LCA. Not covered: thresholds below 1.0 '
+               'the integer test total > 0 and weighMax = total); Model/TaxLoad.lean (functional model of encoding/csv as configured by the loader, of bufio.ReadLine, strings.Split/TrimSpace, strconv.Atoi '
+               'on ASCII bytes, of regexp TX:(\\d+) as leftmost scan). Tied by correspondence only (no theorem): the byte level of the loader (file bytes -> csv records: line splitting, \\r\\n, comments, '
+               'empty lines, field trimming, ErrBareQuote / ErrFieldCount ending the loading silently, names.dmp lines and the 4096-byte limit) - loadDump_declared starts from the csv records; the theorem '
+               '"parse (render decl) = decl" for the canonical NCBI layout is not proved, only tested (example in Props/C14.lean, 200+ generated layouts per run); scientific names / lca_name / rank_name '
+               'values, AddLCAWorker = Taxonomy.LCA. Explicitly not modelled (outcome unmodelled, never generated): csv fields starting with a double quote, negative taxids, non-ASCII bytes in dump files. '
+               'Not covered: thresholds below 1.0 '
                '(outside the statement; map-order dependent on ties), zero/duplicate-key weight overwriting in TaxonomicDistribution beyond equal weights, name-based '
-               'filters (IFilterOnName, AddNewName alternate names), the ITaxonSet iterators, taxonomies that are not well formed (parent cycles hang, two roots make '
+               'filters (IFilterOnName, AddNewName alternate names - observation: AddNewName drops the first alternate name of every taxon from alternatenames, outside the statement), ITaxonSet.Split and '
+               'concurrent consumption of an iterator (the filters are modelled drained by one consumer), taxonomies that are not well formed (parent cycles hang, two roots make '
                'TaxNode.LCA index out of range — modelled as outcomes hang / panic, the latter exercised).',
  'trusted_base': LEAN_TB + ['Go map semantics (one TaxNode object per taxid after ReindexParent, so pointer comparisons are taxid comparisons)',
                             'IEEE-754 double division of integers below 2^53 (w/total = 1.0 iff w = total), used to replace the float test rmax >= 1.0 by an integer test',
-                            'naive ancestor-set oracle in the harness'],
+                            'naive ancestor-set oracle in the harness',
+                            'Go standard library behaviour transcribed in Model/TaxLoad.lean: encoding/csv Reader (Comma |, Comment #, TrimLeadingSpace), bufio.Reader.ReadLine (4096), strings.TrimSpace, strconv.Atoi, regexp leftmost match'],
  'modelled': 'pkg/obitax taxonomy.go (Taxon, AddNewAlias, ReindexParent, RankList), path.go (Path, TaxonAtRank), lca.go (TaxNode.LCA, TaxonomicDistribution, '
              'Taxonomy.LCA at threshold 1.0), issuubcladeof.go (IsSubCladeOf), taxon.go (HasRankDefined), sequence_predicate.go, sequence_methods.go '
-             '(SetTaxonAtRank), obigrep/options.go (CLIRestrictTaxonomyPredicate, CLIAvoidTaxonomyPredicate, CLIHasRankDefinedPredicate, '
-             'CLITaxonomyFilterPredicate); exercised by the harness without a model of their own: ncbitaxdump.LoadNCBITaxDump, SetPath, AddLCAWorker, '
-             'obiannotate.AddTaxonAtRankWorker, scientific names',
+             '(SetTaxonAtRank, SetPath), obigrep/options.go (CLIRestrictTaxonomyPredicate, CLIAvoidTaxonomyPredicate, CLIHasRankDefinedPredicate, '
+             'CLITaxonomyFilterPredicate); ncbitaxdump/read.go (loadNodeTable, loadNameTable scientific names, loadMergedTable, LoadNCBITaxDump from the file bytes), taxonomy.go Taxon(string) and '
+             'IsSubCladeOfSlot on string attributes, iterator.go / filter_on_subclade_of.go / filter_on_rank.go / issuubcladeof.go IsBelongingSubclades (drained), taxonslice.go String; exercised by the '
+             'harness without a model of their own: AddLCAWorker, obiannotate.AddTaxonAtRankWorker name annotations, alternate names',
  'assumptions': ['the taxonomy is well formed: exactly one node is its own parent, every parent taxid is a node, every node reaches the root (a parent cycle '
                  'makes the Go loops spin forever: outcome hang of the model, never executed on the real code)',
                  'weights of a merged_taxid map are >= 0 and below 2^53; keys resolving to the same node carry the same weight (TaxonomicDistribution '
                  'overwrites instead of adding, in map order)',
+                 'dump files are ASCII, no csv field starts with a double quote, taxids are non-negative (else the loader model answers unmodelled)',
                  'threshold of the weighted LCA is exactly 1.0 (--lca-error 0); lower thresholds depend on the map iteration order on ties and are outside the statement']}
